@@ -32,6 +32,8 @@ def run(ctx):
             cmds.append(c["cmd"]); expect.append(c["obs"]); meta.append(c)
         for viol in r["violations"]:
             R.violation(viol["signature"], viol["what"], viol["replay"])
+        if r.get("unconfirmed"):
+            R.extra.setdefault("unconfirmed_violations", []).extend({"version": v, **x} for x in r["unconfirmed"][:5])
     drv = ctx.driver()
     if drv is not None:
         out = drv.batch(cmds)
